@@ -1098,7 +1098,26 @@ def _could_be_the_code(ast_source: Callable, lda: ast.Lambda, source_lines: List
     if len(inner) == 0:
         return True
     # (a default value that is itself a lambda comes first: the candidate is the last one)
-    return _same_code(inner[-1], code)
+    if not _same_code(inner[-1], code):
+        return False
+
+    # Default values are no part of the code: two lambdas can differ in nothing else.
+    def same_defaults(written: List[Any], kept: List[Any]) -> bool:
+        return len(written) == len(kept) and all(
+            not isinstance(w, ast.Constant) or (type(w.value) is type(k) and w.value == k)
+            for w, k in zip(written, kept)
+        )
+
+    kw_kept = getattr(ast_source, "__kwdefaults__", None) or {}
+    kw_written = {
+        a.arg: d for a, d in zip(lda.args.kwonlyargs, lda.args.kw_defaults) if d is not None
+    }
+    return same_defaults(
+        lda.args.defaults, list(getattr(ast_source, "__defaults__", None) or ())
+    ) and (
+        kw_written.keys() == kw_kept.keys()
+        and same_defaults(list(kw_written.values()), [kw_kept[k] for k in kw_written])
+    )
 
 
 def _lambda_at_code_position(
